@@ -208,6 +208,8 @@ def gen_case(rng, nops, aim=None):
                 cnt = 0
             else:
                 cnt = rng.randint(0, sz - off)
+            if rng.random() < 0.04:
+                off = -rng.randint(1, 20)       # must be refused (memory::slice)
             slice_(p, off, cnt)
         elif x < 0.70:
             free(rng.choice(list(live)))
